@@ -197,10 +197,8 @@ func runC28(in *bufio.Scanner, out *bufio.Writer) {
 			if !s.acquired && !s.gone {
 				s.gone = true
 				res = "removed"
-				if ev, ok := w.waitFor("lock.cancel", s.id); !ok {
-					res = "unexpected-" + ev.name
-				} else if ev, ok := w.waitFor("lock.rm", s.id); !ok {
-					res = "unexpected-" + ev.name
+				if !w.returned(s) {
+					res = "unexpected-timeout"
 				}
 				res += w.settle(s.key)
 			}
